@@ -142,20 +142,6 @@ static QP make(int t)
     }
     }
 }
-// the same objects owned by a plain unique_ptr of quaint_ptr's base type: what the re-exported base operator= accepts
-using BaseUP = std::unique_ptr<void, std::function<void(void*)>>;
-static BaseUP make_base(int t)
-{
-    int id = static_cast<int>(objs.size());
-    switch (t)
-    {
-    case 0: return BaseUP(new A(id), [](void* p) { delete static_cast<A*>(p); });
-    case 1: return BaseUP(new B(id), [](void* p) { delete static_cast<B*>(p); });
-    default:
-        return BaseUP(new C(id, std::make_unique<int>(id + 1), "lvalue-argument", "rvalue-argument-longer-than-sso"),
-                      [](void* p) { delete static_cast<C*>(p); });
-    }
-}
 static_assert(!std::is_copy_constructible<QP>::value && !std::is_copy_assignable<QP>::value, "quaint_ptr must not be copyable");
 static_assert(std::is_move_constructible<QP>::value && std::is_move_assignable<QP>::value && std::is_default_constructible<QP>::value,
               "quaint_ptr must be movable and default constructible");
@@ -221,12 +207,6 @@ static std::string run(int n, const std::string& opsw)
             else if (f[0] == "dc") { std::size_t i = arg(1); if (i < pool.size() && !pool[i]) { ok = true; pool[i].emplace(); } }
             else if (f[0] == "vo") { if (!vec.empty()) { ok = true; vec.pop_back(); } }
             else if (f[0] == "ve") { std::size_t k = arg(1); if (k < vec.size()) { ok = true; vec.erase(vec.begin() + static_cast<std::ptrdiff_t>(k)); } }
-            else if (f[0] == "au")
-            {
-                std::size_t i = arg(1);
-                int t = static_cast<int>(arg(2));
-                if (live(i) && t >= 0 && t < 3) { ok = true; *pool[i] = make_base(t); }
-            }
             else return "BADCASE";
             out += (ok ? "ok|" : "skip|") + state_obs(pool, vec) + ";";
         }
